@@ -6,6 +6,7 @@ import (
 
 	ethcmn "github.com/ethereum/go-ethereum/common"
 	ethtypes "github.com/ethereum/go-ethereum/core/types"
+	ethcrypto "github.com/ethereum/go-ethereum/crypto"
 	"pgregory.net/rapid"
 
 	agov "github.com/Oneledger/protocol/action/governance"
@@ -1159,7 +1160,19 @@ var (
 	rtKill = ethcmn.FromHex("0x33ff")
 	// runtime: LOG1(0,0,topic=1); SSTORE(1, ADD(SLOAD(1),1))
 	rtLog = ethcmn.FromHex("0x600160006000a1600160015401600155")
+	// runtime of a "fund, then deploy" factory: CALL(gas, to = CALLDATALOAD(0), value = CALLVALUE); then
+	// CREATE2(value 0, init code = one STOP byte, salt 0) — called with its own CREATE2 child address it funds the
+	// address first and deploys a contract there afterwards, in one transaction
+	rtFactory = ethcmn.FromHex("0x6000600060006000346000355af150" + "6000600160006000f550" + "00")
 )
+
+// RtFactory is exported for the checks that classify recipients by code.
+var RtFactory = rtFactory
+
+// FactoryChild is the address at which a factory (rtFactory) deploys its child.
+func FactoryChild(factory ethcmn.Address) ethcmn.Address {
+	return ethcrypto.CreateAddress2(factory, [32]byte{}, ethcrypto.Keccak256([]byte{0x00}))
+}
 
 func initCode(rt []byte) []byte {
 	// PUSH1 len, PUSH1 0x0c, PUSH1 0, CODECOPY, PUSH1 len, PUSH1 0, RETURN
@@ -1186,6 +1199,7 @@ func (g *Gen) OLVM() txgen.Tx {
 		}
 	}
 	a := txgen.OLVMArgs{ChainID: w.P.ChainID, Nonce: nonce, Fee: txgen.Fee{Price: big.NewInt(1000000000), Cur: "OLT", Gas: 300000}}
+	factoryNote := ""
 	switch rapid.IntRange(0, 6).Draw(g.T, "shape") {
 	case 0, 1: // plain transfer
 		to, _ := g.someAddr("to")
@@ -1202,8 +1216,11 @@ func (g *Gen) OLVM() txgen.Tx {
 		a.Fee.Gas = int64(rapid.SampledFrom([]int{21000, 21000, 50000, 20999}).Draw(g.T, "gas"))
 		tags = append(tags, "olvm-transfer")
 	case 2: // create
-		rt := rapid.SampledFrom([][]byte{rtStore, rtRevert, rtLoop, rtKill, rtLog}).Draw(g.T, "rt")
+		rt := rapid.SampledFrom([][]byte{rtStore, rtRevert, rtLoop, rtKill, rtLog, rtFactory}).Draw(g.T, "rt")
 		a.Data = initCode(rt)
+		if len(rt) == len(rtFactory) {
+			factoryNote = ":factory"
+		}
 		a.Value = big.NewInt(int64(rapid.IntRange(0, 1000).Draw(g.T, "value")))
 		a.Fee.Gas = int64(rapid.SampledFrom([]int{300000, 100000, 60000, 53000}).Draw(g.T, "gas"))
 		tags = append(tags, "olvm-create")
@@ -1213,11 +1230,22 @@ func (g *Gen) OLVM() txgen.Tx {
 			tags = append(tags, "olvm-create")
 		} else {
 			c := w.Contract[rapid.IntRange(0, len(w.Contract)-1).Draw(g.T, "contract")]
+			if len(w.Factories) > 0 && g.Uniform(3, "call-factory") == 0 {
+				c = w.Factories[g.Uniform(len(w.Factories), "factory")]
+			}
 			a.To = &c
 			arg := make([]byte, 32)
 			arg[31] = byte(rapid.SampledFrom([]int{0, 0, 1, 7, 9}).Draw(g.T, "arg"))
 			a.Data = arg
 			a.Value = big.NewInt(int64(rapid.SampledFrom([]int{0, 0, 5}).Draw(g.T, "value")))
+			for _, f := range w.Factories {
+				if f == c {
+					// fund the child address and deploy there (the second call finds the child deployed already)
+					a.Data = ethcmn.LeftPadBytes(FactoryChild(c).Bytes(), 32)
+					a.Value = big.NewInt(int64(rapid.SampledFrom([]int{5, 1000, 0, 5000000}).Draw(g.T, "fvalue")))
+					tags = append(tags, "olvm-call-factory")
+				}
+			}
 			a.Fee.Gas = int64(rapid.SampledFrom([]int{300000, 100000, 30000, 22000}).Draw(g.T, "gas"))
 			tags = append(tags, "olvm-call")
 		}
@@ -1248,7 +1276,7 @@ func (g *Gen) OLVM() txgen.Tx {
 	}
 	tx := txgen.OLVM(e, a)
 	tx.Tags = tags
-	tx.Note = fmt.Sprintf("olvm:%s:%d", e.Name, nonce)
+	tx.Note = fmt.Sprintf("olvm:%s:%d%s", e.Name, nonce, factoryNote)
 	return g.note(tx)
 }
 
